@@ -74,7 +74,7 @@ func init() {
 				t := e.T
 				cfg := srvCfg{prop: "C15", nConns: t.Range(3, 4), msgsPer: [2]int{1, 5}, parkPct: 25, answerPct: 100,
 					panicPct: 1, malformed: true, rst: true, acceptErrs: true, lateConn: true, extraReg: true,
-					nilHandler: t.Chance(1, 4), tlsStall: t.Chance(1, 4)}
+					nilHandler: t.Chance(1, 4), tlsStall: t.Chance(1, 4), idxRegs: t.Chance(1, 3)}
 				newSrvWorld(e, cfg).run()
 			}},
 			{Name: "sctp-faults", Weight: 1, Bubble: true, Run: c15Sctp},
